@@ -5,8 +5,12 @@
   range under the visible guard `ParentStable`: the known finding "mark step vs. parent-retyping
   replace", DESIGN.md), and for two markup steps on disjoint tokens.  Pairs involving
   replace-around steps: rebasing (`rebase_markup_not_dropped_around`) only; convergence is covered
-  by the correspondence run and the search.  "Each application succeeds" is a hypothesis throughout.
-  Helper lemmas: Proofs/Commute.lean, Proofs/CommuteMarkup.lean.
+  by the correspondence run and the search.  "Each application succeeds" is a hypothesis of the
+  convergence theorems; that the two rebased replace steps *do* apply is proved under the decidable guard
+  `commuteGuard` (`commute_succeeds_replace`: one step inside a node the other does not touch; false
+  without a guard, `commute_needs_guard`).
+  Helper lemmas: Proofs/Commute.lean, Proofs/CommuteMarkup.lean, Proofs/CommuteSuccess.lean,
+  Proofs/CommuteSuccessR.lean, Proofs/Lvl.lean.
 -/
 import PM.Step
 import Proofs.StepToks
